@@ -734,10 +734,77 @@ func ruleBC3(c *Ctx) {
 	}
 	// placeholder closure writes at the captured offset
 	if ph := c.FuncDecl("vm", "bytecode.placeholderUint16"); ph != nil {
-		s := c.sxN(ph, ph.Body.List)
-		okPh := strings.HasPrefix(s, "[(AssignStmt Lhs:[$0] Tok::= Rhs:[(CallExpr Fun:len Args:[(SelectorExpr $r Sel:code)])]) (ExprStmt (CallExpr Fun:(SelectorExpr $r Sel:emitUint16) Args:[0]))") &&
-			strings.Contains(s, "(CallExpr Fun:copy Args:[(SliceExpr (SelectorExpr $r Sel:code) Low:$0 Slice3:false)")
-		c.R.Check(okPh, "vm.bytecode.placeholderUint16", "BC-4 patch writes the operand reserved at the captured offset", ph.Pos(), "offset := len(code); emit 0; closure copies into code[offset:]", "placeholder does not reserve and later overwrite exactly its own 2 operand bytes")
+		// offset := len(b.code) captured BEFORE the two operand bytes are reserved; the returned closure writes its 16-bit value
+		// into b.code starting at exactly that offset (copy / PutUint16 / a local 16-bit writer), nowhere else
+		var offObj types.Object
+		var offStmt, reserve ast.Node
+		for _, st := range ph.Body.List {
+			if as, ok := st.(*ast.AssignStmt); ok && len(as.Lhs) == 1 && len(as.Rhs) == 1 && offObj == nil {
+				if ce, ok := unparen(as.Rhs[0]).(*ast.CallExpr); ok && c.calleeName(ce) == "builtin.len" && len(ce.Args) == 1 {
+					if se, ok := unparen(ce.Args[0]).(*ast.SelectorExpr); ok && se.Sel.Name == "code" {
+						offObj, offStmt = c.objOf(as.Lhs[0]), st
+					}
+				}
+			}
+			if es, ok := st.(*ast.ExprStmt); ok && reserve == nil {
+				if ce, ok := es.X.(*ast.CallExpr); ok && c.calleeName(ce) == "vm.bytecode.emitUint16" {
+					reserve = st
+				}
+			}
+		}
+		okOrder := offObj != nil && reserve != nil && offStmt.Pos() < reserve.Pos()
+		writes, okWrite := 0, true
+		for _, lit := range funcLits(ph.Body) {
+			ast.Inspect(lit.Body, func(x ast.Node) bool {
+				ce, ok := x.(*ast.CallExpr)
+				if !ok || len(ce.Args) == 0 {
+					return true
+				}
+				sl, ok := unparen(ce.Args[0]).(*ast.SliceExpr)
+				if !ok {
+					return true
+				}
+				se, ok := unparen(sl.X).(*ast.SelectorExpr)
+				if !ok || se.Sel.Name != "code" {
+					return true
+				}
+				writes++
+				lowOK := sl.Low != nil && c.objOf(sl.Low) == offObj
+				highOK := sl.High == nil
+				if be, ok := unparen(sl.High).(*ast.BinaryExpr); ok && sl.High != nil && be.Op == token.ADD && c.objOf(be.X) == offObj {
+					if v := c.constOf(be.Y); v != nil && v.String() == "2" {
+						highOK = true
+					}
+				}
+				if !lowOK || !highOK {
+					okWrite = false
+				}
+				return true
+			})
+			// direct element stores b.code[offset] = .., b.code[offset+1] = ..
+			ast.Inspect(lit.Body, func(x ast.Node) bool {
+				as, ok := x.(*ast.AssignStmt)
+				if !ok {
+					return true
+				}
+				for _, l := range as.Lhs {
+					if ix, ok := unparen(l).(*ast.IndexExpr); ok {
+						if se, ok := unparen(ix.X).(*ast.SelectorExpr); ok && se.Sel.Name == "code" {
+							writes++
+							base := unparen(ix.Index)
+							if be, ok := base.(*ast.BinaryExpr); ok && be.Op == token.ADD {
+								base = unparen(be.X)
+							}
+							if c.objOf(base) != offObj {
+								okWrite = false
+							}
+						}
+					}
+				}
+				return true
+			})
+		}
+		c.R.Check(okOrder && writes >= 1 && okWrite, "vm.bytecode.placeholderUint16", "BC-4 patch writes the operand reserved at the captured offset", ph.Pos(), "offset := len(code) before the two bytes are reserved; the closure writes into code[offset:..] only", "placeholder does not reserve and later overwrite exactly its own 2 operand bytes")
 	} else {
 		c.R.Anchor("vm.bytecode.placeholderUint16")
 	}
